@@ -140,6 +140,9 @@ ARG_FAULTS = {
     "both_safety": {"_up": {"growing.safety.full_geom_step": True, "growing.safety.reduce_delta": True}},
     "both_growing": {"_up": {"growing.full_rank.use_full_rank_interp": True, "growing.perturb_trust_region_step": True}},
     "both_noise": {"_up": {"noise.quit_on_noise_level": True, "noise.additive_noise_level": 1.0, "noise.multiplicative_noise_level": 0.1}},
+    "both_noise_zero_additive": {"_up": {"noise.quit_on_noise_level": True, "noise.additive_noise_level": 0.0, "noise.multiplicative_noise_level": 0.1}},
+    "both_noise_zero_multiplicative": {"_up": {"noise.quit_on_noise_level": True, "noise.additive_noise_level": 0.5, "noise.multiplicative_noise_level": 0.0}},
+    "both_noise_via_flag": {"_up": {"noise.additive_noise_level": 0.0, "noise.multiplicative_noise_level": 0.0}, "objfun_has_noise": True},
     "parallel_coord": {"_up": {"init.run_in_parallel": True}},
     "reset_rho_only": {"_up": {"growing.reset_rho": True}},
     "bad_param": {"_up": {"tr_radius.eta1": -0.1}},
@@ -253,9 +256,9 @@ def _solve(kw_over, up=None, ctx="plain", scaling=False, proj=False, bounds=None
     import signal
 
     def on_alarm(signum, frame):
-        raise solvex.Timeout("execution exceeded 60 s")
-    old = signal.signal(signal.SIGALRM, on_alarm)
-    signal.setitimer(signal.ITIMER_REAL, 60.0)
+        raise solvex.Timeout("execution exceeded 120 s of CPU time")
+    old = signal.signal(signal.SIGPROF, on_alarm)
+    signal.setitimer(signal.ITIMER_PROF, 120.0)
     solvex.CUR = ex
     try:
         try:
@@ -267,8 +270,8 @@ def _solve(kw_over, up=None, ctx="plain", scaling=False, proj=False, bounds=None
             return "raised", e, len(calls)
     finally:
         solvex.CUR = None
-        signal.setitimer(signal.ITIMER_REAL, 0)
-        signal.signal(signal.SIGALRM, old)
+        signal.setitimer(signal.ITIMER_PROF, 0)
+        signal.signal(signal.SIGPROF, old)
 
 
 def _wellformed(soln, ncalls, v, what):
